@@ -2,4 +2,13 @@
 import OdcGeo.Model.C13
 namespace OdcGeo.C13
 
+/-- `resolve_fill_value`: destination nodata, else source nodata, else NaN for floating point, else 0. -/
+theorem resolveFill_spec (d s : Option Val) (k : DKind) :
+    resolveFill d s k =
+      match d, s with
+      | some v, _ => v
+      | none, some v => v
+      | none, none => if k = .float then .nan else .num 0 := by
+  cases d <;> cases s <;> cases k <;> simp [resolveFill]
+
 end OdcGeo.C13
